@@ -623,7 +623,7 @@ pub fn gen(a: &Args) -> String {
         let mut r = Rng::new(seed);
         let mut out = Out::default();
         out.buf.push_str("#rule one case = a node configuration (1..5 fabrics with removed/missing indices, 0..4 ACL entries each: privilege x auth mode x null/empty/non-empty subjects x null/empty/non-empty targets of all 8 endpoint/cluster/device-type shapes, group tables) built through the real API, then queries (accessor fabric in {0, existing, missing}, mode PASE/CASE/Group/none, up to 4 tags with version above/equal/below an entry's, operation, declared and random access bits) mostly aimed at one entry with single-aspect deviations; 1 case in 5 is uniform over raw bit patterns; non-trivial = the non-PASE queries of the case produced both allow and deny\n");
-        let n_cases: u64 = if thorough { 40000 } else { 2500 };
+        let n_cases: u64 = if thorough { 120000 } else { 12000 };
         // case 0: the capacities the model assumes
         run_case(matter, &mut out, &Case { id: 0, kind: "acl caps".into(), ops: vec![caps_line()] });
         for id in 1..=n_cases {
